@@ -124,6 +124,9 @@ class Check:
         (broken code may make the remaining executions arbitrarily slow; the verdict is already known)."""
         t_end = None if time_cap is None else time.time() + time_cap
         hit = {'cap': False}
+        # development aid (tools/reverify_all.sh): abandon any check at its first new violation; never set by the
+        # registered commands
+        stop_on_violation = stop_on_violation or bool(os.environ.get('VERIF_FAST_FAIL'))
 
         def abort():
             if not stop_on_violation:
